@@ -397,6 +397,36 @@ impl FarmGen {
     fn gen_pos_close(&mut self, w: &World, f: &FObs) -> Option<Op> {
         let open: Vec<&Position> = f.positions.values().filter(|p| p.open || self.rng.gen_range(0..10) == 0).collect();
         let p = (*open.choose(&mut self.rng)?).clone();
+        if p.open && self.rng.gen_range(0..25) == 0 {
+            // leave and return: the owner claims, closes every open position in this LP token
+            // (some in pieces), stays away for a few epochs, opens a new position and claims
+            let u = p.receiver.clone();
+            let lp = p.lp_asset.denom.clone();
+            self.script.push_back(claim_op(&u, None));
+            for q in f.positions.values().filter(|q| q.open && q.receiver == u && q.lp_asset.denom == lp) {
+                let t = q.lp_asset.amount.u128();
+                if t > 3 && self.rng.gen_bool(0.5) {
+                    self.script.push_back(pos_op(&u, PositionAction::Close { identifier: q.identifier.clone(), lp_asset: Some(coin(t / 2, lp.clone())) }, vec![]));
+                }
+                self.script.push_back(pos_op(&u, PositionAction::Close { identifier: q.identifier.clone(), lp_asset: None }, vec![]));
+            }
+            let dur = w.cfg.epoch_duration;
+            self.script.push_back(Op::Advance { secs: dur * self.rng.gen_range(1..4) });
+            if self.rng.gen_bool(0.5) {
+                // free some LP again
+                self.script.push_back(pos_op(&u, PositionAction::Withdraw { identifier: p.identifier.clone(), emergency_unlock: Some(true) }, vec![]));
+            }
+            let amount = (p.lp_asset.amount.u128() / 3).max(1);
+            self.n_explicit += 1;
+            let back_dur = self.duration();
+            let back_id = format!("back{}", self.n_explicit);
+            self.script.push_back(pos_op(&u, PositionAction::Create { identifier: Some(back_id), unlocking_duration: back_dur, receiver: None }, vec![coin(amount, lp.clone())]));
+            self.script.push_back(Op::Advance { secs: dur });
+            self.script.push_back(claim_op(&u, None));
+            self.script.push_back(Op::Advance { secs: dur });
+            self.script.push_back(claim_op(&u, None));
+            return self.script.pop_front();
+        }
         let sender = if self.rng.gen_range(0..8) == 0 { self.user(w) } else { p.receiver.clone() };
         let total = p.lp_asset.amount.u128();
         let lp_asset = match self.rng.gen_range(0..8) {
